@@ -644,6 +644,12 @@ func (c *compiler) buildLA(useTransitions, stats bool) {
 					// This rule was pruned from the inner chain of transitions.
 					continue rules
 				}
+				if _, dropped := slices.BinarySearch(c.states[curr].dropped, i+1); dropped {
+					// Same here: the transition exists for other rules but the item of this rule
+					// was dropped from the target state by a .greedy marker. Following the chain
+					// any further would end in a state that does not reduce this rule.
+					continue rules
+				}
 			}
 
 			if !c.states[curr].lr0 {
